@@ -1,17 +1,29 @@
 #!/bin/bash
-# demo.sh <n2 binary>.  C12: "for every manifest ... the readers terminate with Ok or an error, never a panic".
-# D2: a path that expands to the empty string reaches canonicalize_path's assert!(!path.is_empty()).
-# D3: a path with more than 60 components overflows its fixed-size component stack: panic "too many path components".
-N2=$1; T=$(mktemp -d); cd $T; fail=0
+# demo.sh <n2 binary>.  C12: "for every manifest, every target string on the command line and every depfile ... never panics".
+# D2: a path that expands to the empty string reached canonicalize_path's assert!(!path.is_empty())   (fixed in ebc0007)
+# D3: a path with more than 60 components overflowed its fixed-size component stack: "too many path components" (fixed in 0531b09)
+# Both were reachable from a manifest path, a command-line target and (D3) a depfile.  PASS = no panic (rc 0 or 1, never 101/134).
+N2=${1:-/repo/target/debug/n2}; T=$(mktemp -d); cd $T; fail=0
+chk() { # label rc output
+  echo "$1: rc=$2: $(echo "$3" | grep -a -m1 -E 'panicked|too many|error|up to date|no work')"
+  { [ $2 -eq 0 ] || [ $2 -eq 1 ]; } && ! echo "$3" | grep -q panicked || fail=1
+}
 printf 'build $x: phony\n' > build.ninja
-out=$($N2 2>&1); rc=$?
-echo "D2 (empty path): rc=$rc: $(echo "$out" | grep -a -m1 -E 'panicked|error')"
-[ $rc -eq 1 ] && echo "$out" | grep -q "n2: error" || fail=1
+out=$($N2 2>&1); chk "D2 manifest (empty expansion)" $? "$out"
 p=$(python3 -c "print('/'.join(['d']*61))")
-printf 'build %s: phony\n' "$p" > build.ninja
-out=$($N2 2>&1); rc=$?
-echo "D3 (61 components): rc=$rc: $(echo "$out" | grep -a -m1 -E 'panicked|too many|error')"
-[ $rc -eq 1 ] && echo "$out" | grep -q "n2: error" || fail=1
+printf 'build %s: phony\n' "$p" > build.ninja; rm -f .n2_db
+out=$($N2 2>&1); chk "D3 manifest (61 components)" $? "$out"
+printf 'rule t\n  command = touch $out\nbuild x: t\n' > build.ninja; rm -f .n2_db
+out=$($N2 "" 2>&1); chk "D2 command line (empty target)" $? "$out"
+out=$($N2 "$p" 2>&1); chk "D3 command line (61 components)" $? "$out"
+cat > build.ninja <<XEOF
+rule cc
+  command = touch \$out; echo "\$out: $p/h.h" > \$out.d
+  depfile = \$out.d
+build y: cc
+XEOF
+rm -f .n2_db
+out=$($N2 y 2>&1); chk "D3 depfile (62 components)" $? "$out"
 cd /; rm -rf $T
-[ $fail -eq 0 ] && echo PASS || echo "FAIL: a manifest path made n2 panic instead of reporting an error"
+[ $fail -eq 0 ] && echo PASS || echo "FAIL: a path made n2 panic"
 exit $fail
